@@ -34,7 +34,8 @@ theorem expand_shift (bs : List Blk) (a : Nat) : expand a bs = (expand 0 bs).map
     simp [List.map_map, Function.comp_def, Nat.add_comm, Nat.add_left_comm]
 
 /-- The restored list is well formed when the block generations of the file are consecutive. -/
-theorem file_pbl_wfp (f : SFile) (ss : Nat) (hg : ∃ g, gidsFrom g (f.blocks.map (restoredBlk ss))) : WFP (f.pbl ss) := by
+theorem file_pbl_wfp (f : SFile) (ss : Nat) (hpos : 0 < ss) (hg : ∃ g, gidsFrom g (f.blocks.map (restoredBlk ss))) :
+    WFP (f.pbl ss) := by
   constructor
   · rfl
   · simp [SFile.pbl, expand_restored_length]
@@ -44,20 +45,18 @@ theorem file_pbl_wfp (f : SFile) (ss : Nat) (hg : ∃ g, gidsFrom g (f.blocks.ma
     simp only [SFile.pbl, List.mem_map] at hb
     obtain ⟨b0, _, rfl⟩ := hb
     simp only [restoredBlk, Nat.le_refl, true_and]
-    by_cases hss : ss = 0
-    · subst hss; simp
-    · have hpos : 0 < ss := Nat.pos_of_ne_zero hss
-      have h1 := Nat.div_add_mod (b0.wo + ss - 1) ss
-      have h2 := Nat.mod_lt (b0.wo + ss - 1) hpos
-      rw [Nat.mul_comm] at h1
-      omega
+    have h1 := Nat.div_add_mod (b0.wo + ss - 1) ss
+    have h2 := Nat.mod_lt (b0.wo + ss - 1) hpos
+    rw [Nat.mul_comm] at h1
+    omega
   · exact hg
 
 /-- `GetPersistentState`'s loop emits the synchronised prefix: block `j` of the result carries the
 generation, slot and synchronised offset of block `j` of the list. -/
 theorem stateBlocks_get : ∀ (bs : List Blk) (seeds : List Nat) (rem : Nat) (bl : List BState),
     PBL.stateBlocks bs seeds rem = some bl →
-    ∀ j x, bl[j]? = some x → ∃ b, bs[j]? = some b ∧ x.gid = b.gid ∧ x.slot = b.slot ∧ x.wo = b.synced := by
+    ∀ (j : Nat) (x : BState), bl[j]? = some x →
+      ∃ b : Blk, bs[j]? = some b ∧ x.gid = b.gid ∧ x.slot = b.slot ∧ x.wo = b.synced := by
   intro bs
   induction bs with
   | nil =>
